@@ -84,6 +84,21 @@ def tasks(tier):
         cfg = dict(M=M, alphabet=["ok", "x:T", "r:T"], attempt_hooks="call", max_unknown=None,
                    faults=[("aend", idx, "RuntimeError")], strat_obj=True)
         out.append({"family": "surface-end-hook-fault", "cfg": cfg, "entry": e, "bound": 0})
+    # the call is the half-open probe of a breaker and the result classifier rejects the value
+    PROBE = {"threshold": 1, "window": 8, "recovery": 2, "trip_on": ["T", "U", "P"],
+             "pre": [("fail", "T"), ("tick", 2)]}
+    for M, e in itertools.product([2, 3], ["Policy.call", "AsyncPolicy.call", "RetryPolicy.call", "Policy.context"]):
+        cfg = dict(M=M, alphabet=["ok", "r:T", "x:T", "r:P"], force_rc=True, breaker=PROBE,
+                   max_unknown=None, handler="call")
+        out.append({"family": "surface-probe", "cfg": cfg, "entry": e, "bound": 1})
+    # exception instances that refuse attribute assignment (frozen dataclass exceptions)
+    for M, e in itertools.product([1, 2, 3], ["Retry.call", "AsyncRetry.call", "Policy.call", "AsyncPolicy.call",
+                                              "RetryPolicy.call", "deco"]):
+        cfg = dict(M=M, alphabet=["ok", "xi:T", "xi:P", "x:T", "r:T"], max_unknown=None,
+                   handler="call" if e != "deco" else None, sleeper="call" if e != "deco" else "policy",
+                   breaker={"threshold": 3, "window": 8, "recovery": 2, "trip_on": ["T", "U", "P"]}
+                   if e.startswith(("Policy", "AsyncPolicy")) else None)
+        out.append({"family": "surface-frozen-exception", "cfg": cfg, "entry": e, "bound": 1})
     # exception objects whose truth value is False
     for M, e in itertools.product([1, 2, 3], ["Retry.call", "Policy.call", "RetryPolicy.call", "AsyncRetry.call",
                                               "AsyncPolicy.call", "Retry.context"]):
